@@ -71,14 +71,29 @@ type c18Answer struct {
 	err         bool
 }
 
-// c18Check runs one (table, host) case; returns a failure text or "".
-func c18Check(c c18Case, reps int) (string, int, string) {
+// c18Build creates the product table for a case.
+func c18Build(tab []c18Entry) (*PreConfigRoute, string) {
 	pcr := NewPreConfigRoute()
-	for _, e := range c.Table {
+	for _, e := range tab {
 		if err := pcr.AddRouteItem(e.Proto, e.Pattern, e.NextHop); err != nil {
-			return fmt.Sprintf("AddRouteItem(%q,%q,%q) failed: %v", e.Proto, e.Pattern, e.NextHop, err), 0, ""
+			return nil, fmt.Sprintf("AddRouteItem(%q,%q,%q) failed: %v", e.Proto, e.Pattern, e.NextHop, err)
 		}
 	}
+	return pcr, ""
+}
+
+// c18Check runs one (table, host) case on a fresh table; returns a failure text or "".
+func c18Check(c c18Case, reps int) (string, int, string) {
+	pcr, msg := c18Build(c.Table)
+	if msg != "" {
+		return msg, 0, ""
+	}
+	return c18CheckOn(pcr, c, reps, nil)
+}
+
+// c18CheckOn looks c.Host up reps times on an existing table object (which
+// may have answered other lookups before: the answer must not depend on that).
+func c18CheckOn(pcr *PreConfigRoute, c c18Case, reps int, firstSeen *c18Answer) (string, int, string) {
 	// reference
 	var literal *c18Entry
 	var def *c18Entry
@@ -111,32 +126,42 @@ func c18Check(c c18Case, reps int) (string, int, string) {
 		kind = "none"
 	}
 	var first c18Answer
+	haveFirst := false
+	if firstSeen != nil && (firstSeen.host != "" || firstSeen.err) {
+		first, haveFirst = *firstSeen, true
+	}
 	for r := 0; r < reps; r++ {
 		proto, host, port, err := pcr.FindRoute(c.Host)
 		a := c18Answer{proto, host, port, err != nil}
-		if r == 0 {
-			first = a
-			if len(admissible) == 0 {
-				if err == nil {
-					return fmt.Sprintf("host %q matches no entry, yet FindRoute returned %s %s:%d", c.Host, proto, host, port), len(w), kind
-				}
-			} else {
-				if err != nil {
-					return fmt.Sprintf("host %q must be routed by the %s rule, FindRoute returned error %v", c.Host, kind, err), len(w), kind
-				}
-				ok := false
-				for _, e := range admissible {
-					eh, ep, _ := c18RefPort(e)
-					if eh == host && ep == port && e.Proto == proto {
-						ok = true
-					}
-				}
-				if !ok {
-					return fmt.Sprintf("host %q: rule %s admits %v, FindRoute returned %s %s:%d", c.Host, kind, admissible, proto, host, port), len(w), kind
+		if err != nil {
+			a = c18Answer{err: true}
+		}
+		if len(admissible) == 0 {
+			if err == nil {
+				return fmt.Sprintf("host %q matches no entry, yet FindRoute returned %s %s:%d (lookup #%d on this table object)", c.Host, proto, host, port, r+1), len(w), kind
+			}
+		} else {
+			if err != nil {
+				return fmt.Sprintf("host %q must be routed by the %s rule, FindRoute returned error %v", c.Host, kind, err), len(w), kind
+			}
+			ok := false
+			for _, e := range admissible {
+				eh, ep, _ := c18RefPort(e)
+				if eh == host && ep == port && e.Proto == proto {
+					ok = true
 				}
 			}
+			if !ok {
+				return fmt.Sprintf("host %q: rule %s admits %v, FindRoute returned %s %s:%d", c.Host, kind, admissible, proto, host, port), len(w), kind
+			}
+		}
+		if !haveFirst {
+			first, haveFirst = a, true
+			if firstSeen != nil {
+				*firstSeen = a
+			}
 		} else if a != first {
-			return fmt.Sprintf("host %q: unstable answer, lookup #1 gave %+v, lookup #%d gave %+v", c.Host, first, r+1, a), len(w), kind
+			return fmt.Sprintf("host %q: unstable answer, an earlier lookup gave %+v, lookup #%d gave %+v", c.Host, first, r+1, a), len(w), kind
 		}
 	}
 	return "", len(w), kind
@@ -193,9 +218,9 @@ func c18Record(c c18Case, nw int, kind string) {
 }
 
 func TestC18(t *testing.T) {
-	V.Rule("unit: route tables (exhaustive: all ordered tables of <=3 entries and all/sampled 4-entry tables over 10 patterns x 9 hosts; random: 5-30 generated entries, hosts derived from patterns by substitution and near-miss edits) looked up 50x (3x when at most one wildcard matches); non-trivial = >=2 wildcards match, or literal and wildcard both match, or a dotted look-alike; distinct by (table, host)")
+	V.Rule("unit: route tables (exhaustive: all ordered tables of <=3 entries and all/sampled 4-entry tables over 10 patterns x 9 hosts; random: 5-30 generated entries, hosts derived from patterns by substitution and near-miss edits) looked up 50x (3x when at most one wildcard matches) on a fresh table, and as interleaved lookup histories (all hosts forward/backward/forward; random other hosts in between) on one table object; non-trivial = >=2 wildcards match, or literal and wildcard both match, or a dotted look-alike; distinct by (table, host)")
 	V.Assume("patterns and hosts use host-name characters and '*' only")
-	V.Require("rule:literal", "rule:wildcard", "rule:default", "rule:none", "ties:>=2 wildcards match", "literal and wildcard both match", "dotted look-alike")
+	V.Require("interleaved lookups on one table", "rule:literal", "rule:wildcard", "rule:default", "rule:none", "ties:>=2 wildcards match", "literal and wildcard both match", "dotted look-alike")
 
 	t.Run("exhaustive", func(t *testing.T) {
 		protos := []string{"udp", "tcp", "tls", "TLS"}
@@ -238,6 +263,29 @@ func TestC18(t *testing.T) {
 					V.Violation(t, desc, c, "%s", msg)
 					return false
 				}
+			}
+			// history part: one table object answers all hosts, interleaved, three rounds
+			// (an answer must not depend on what was looked up before)
+			pcr, bmsg := c18Build(tab)
+			if bmsg == "" && V.only == "" {
+				firsts := make([]c18Answer, len(c18Hosts))
+				for round := 0; round < 3; round++ {
+					for hi := range c18Hosts {
+						k := hi
+						if round == 1 {
+							k = len(c18Hosts) - 1 - hi
+						}
+						c := c18Case{Table: tab, Host: c18Hosts[k]}
+						V.Eval()
+						reps := 1 + round%2
+						if msg, _, _ := c18CheckOn(pcr, c, reps, &firsts[k]); msg != "" {
+							V.Class("interleaved lookups on one table")
+							V.Violation(t, "", map[string]any{"table": tab, "lookup_order": "all hosts of the universe, forward, backward, forward", "failing_host": c18Hosts[k]}, "interleaved lookups on one table object: %s", msg)
+							return false
+						}
+					}
+				}
+				V.Class("interleaved lookups on one table")
 			}
 			return true
 		}
@@ -354,6 +402,28 @@ func TestC18(t *testing.T) {
 		c := c18Case{Table: tab, Host: host}
 		V.Case(c)
 		msg, nw, kind := c18Check(c, 50)
+		if msg == "" {
+			// history: other hosts first (hits and misses), then the same host again on the same object
+			if pcr, bm := c18Build(tab); bm == "" {
+				var f0 c18Answer
+				c18CheckOn(pcr, c, 1, &f0)
+				nother := rapid.IntRange(1, 4).Draw(rt, "others")
+				for i := 0; i < nother && msg == ""; i++ {
+					oh := genName.Draw(rt, "otherhost")
+					if rapid.Bool().Draw(rt, "otherfrompattern") {
+						oh = strings.ReplaceAll(tab[rapid.IntRange(0, len(tab)-1).Draw(rt, "opat")].Pattern, "*", genLabel.Draw(rt, "osubst"))
+					}
+					if oh == "default" {
+						oh = "default.y"
+					}
+					msg, _, _ = c18CheckOn(pcr, c18Case{Table: tab, Host: oh}, 2, nil)
+					if msg == "" {
+						msg, _, _ = c18CheckOn(pcr, c, 2, &f0)
+					}
+				}
+				V.Class("interleaved lookups on one table")
+			}
+		}
 		c18Record(c, nw, kind)
 		V.SampleEvery(1500, func() any { return c })
 		if msg != "" {
